@@ -182,7 +182,7 @@ class HostSimpleRequirement(HostRequirement):
             )
             return None
 
-        if host.cpu < self.cpu:
+        if host.cpu.memory < self.cpu.memory or host.cpu.cores < self.cpu.cores:
             return None
 
         if host.max_duration > 0 and self.duration > host.max_duration:
